@@ -225,4 +225,20 @@ EntryData(e) == [kind |-> e.kind, a |-> e.a, b |-> e.b, canon |-> e.canon, summa
 RecData(r) == [date |-> r.date, should |-> r.should, summary |-> r.summary,
                entries |-> [i \in 1..Len(r.entries) |-> EntryData(r.entries[i])]]
 DocData(p) == [k \in 1..Len(p.recs) |-> RecData(p.recs[k])]
+(***************************************************************************)
+(* For the commands that change a file (C03, C04, C05, C11) the question is *)
+(* not whether the specification settles that the file is valid but what    *)
+(* happens to it: a file whose only unsettled feature is blanks at the end  *)
+(* of headlines (which klog accepts and which change neither date nor       *)
+(* should-total) is judged like a conforming one.                           *)
+(***************************************************************************)
+RECURSIVE RTrimBlanks(_)
+RTrimBlanks(t) == IF t # "" /\ IsSpaceOrTab(Ch(t, Len(t))) THEN RTrimBlanks(Take(t, Len(t) - 1)) ELSE t
+StripHeadBlanks(text) ==
+    LET ls == SplitLines(text) IN
+    JoinLines([i \in 1..Len(ls) |-> IF ls[i].text # "" /\ IsDigit(Ch(ls[i].text, 1)) THEN [ls[i] EXCEPT !.text = RTrimBlanks(@)] ELSE ls[i]])
+JudgedLikeConforming(P, text) ==
+    \/ P.status = "Conforming"
+    \/ /\ P.status = "Unspecified" /\ ~HasPUA(P.lines) /\ ~LoneCR(P.lines) /\ ~ZsOnlyLine(P.lines)
+       /\ LET Q == ParseDoc(StripHeadBlanks(text)) IN Q.status = "Conforming" /\ DocData(Q) = DocData(P)
 =============================================================================
